@@ -17,7 +17,7 @@ EXPLANATION = (
     "slot holds a valid pipe; on return every source's events = exactly the bits of its ready slots (so a subset of the interests), "
     "sources without a process report nothing and are never dereferenced, the return value = number of sources with events; "
     "errors change no events. pipe_poll copies descriptors/interests in and the OS results back per index without altering them. "
-    "Not decided: that a reported readiness is true of the kernel object (that is poll(2)). Handles whose child has already been waited for (exited shape, output possibly still buffered) are analysed as well, and the closer's contract (the invalid marker is stored back whatever close() returned) is part of this check, since 'no stream can still be polled' is decided by comparing fields with that marker.")
+    "Not decided: that a reported readiness is true of the kernel object (that is poll(2)). Handles whose child has already been waited for (exited shape, output possibly still buffered) are analysed as well, and the closer's contract (the invalid marker is stored back whatever close() returned) is part of this check, since 'no stream can still be polled' is decided by comparing fields with that marker. The exit event is the hang-up of the exit pipe: on the all-paths run of reproc_start the child's end of that pipe cannot be descriptor 0, 1 or 2 (where the child's streams are installed over it) when at least two descriptors created earlier are open (V8; fails for redirect types that create fewer than two descriptors - recorded known finding F17).")
 ASSUMPTIONS = [
     "clang 14 parser/CFG and the fact extractor are correct", "poll(2) ignores negative descriptors and reports readiness truthfully",
     "deadline handling is C08's; here the effective timeout is a symbolic value different from the 'expired' marker",
